@@ -65,6 +65,7 @@ class TRec(Ty):
 
 
 AnySort = z3.DeclareSort('Any')
+ANY_TRUTH = z3.Function('any_truth', AnySort, z3.BoolSort())
 CLS_NAME = z3.Function('cls_name', z3.IntSort(), z3.StringSort())     # dynamic class name of an object
 
 
@@ -220,7 +221,10 @@ def truthy(v):
     if isinstance(v, VStr): return z3.Length(v.term) > 0
     if isinstance(v, VNone): return z3.BoolVal(False)
     if isinstance(v, VOpt): return z3.And(z3.Not(v.isnone), truthy(v.val))
-    if isinstance(v, (VRef, VFunc, VAny, VRec)) or type(v).__name__ in ('VMatch', 'VFile', 'VCtx'): return z3.BoolVal(True)
+    if isinstance(v, VAny):
+        # an opaque value: its truth value is unknown but fixed (0, '', an empty container typed TAny are falsy)
+        return ANY_TRUTH(v.term) if z3.is_expr(v.term) and v.term.sort() == AnySort else z3.BoolVal(True)
+    if isinstance(v, (VRef, VFunc, VRec)) or type(v).__name__ in ('VMatch', 'VFile', 'VCtx'): return z3.BoolVal(True)
     if isinstance(v, VList): return v.n > 0
     if isinstance(v, VSet): return v.card > 0
     if isinstance(v, VTuple): return z3.BoolVal(len(v.items) > 0)
